@@ -101,8 +101,8 @@ def _d2(chk, fb):
     for f in ctors:
         cfg = f.cfg
         loops = e1.natural_loops(cfg)
-        splits = [c for c in f.calls() if c["callee"]["name"] == "push_back" and "obj" in c and render(f.obj(c)) == "splits_"]
-        tokens = [c for c in f.calls() if c["callee"]["name"] == "push_back" and "obj" in c and render(f.obj(c)) == "tokens_"]
+        splits = [c for c in f.calls() if c["callee"]["name"] in ("push_back", "emplace_back") and "obj" in c and render(f.obj(c)) == "splits_"]
+        tokens = [c for c in f.calls() if c["callee"]["name"] in ("push_back", "emplace_back") and "obj" in c and render(f.obj(c)) == "tokens_"]
         for sp_ in splits:
             n_s += 1
             reads = {x["decl"]["id"]: x["decl"]["name"] for x in walk(f.args(sp_)[0]) if x["k"] == "DeclRefExpr" and x["decl"]["kind"] == "local"}
@@ -140,7 +140,17 @@ def _d2(chk, fb):
             # a token pushed on a path that continues scanning (delimiter found) is paired with a split on that path
             for t in tokens:
                 b = cfg.stmt_block(t)
-                found = any((tt.endswith("npos)") and "!=" in tt and "newIndex" in tt and tr) for a in cfg.dom.get(b, ()) for s_ in cfg.succ[a] if (s_ == b or cfg.dominates(s_, b)) for tt, tr, _ in e1.edge_facts(cfg, a, s_))
+                # 'a delimiter was found': the position returned by the search made in this iteration (a local declared inside the
+                # scanning loop) differs from npos on every path to the push
+                inloop = {d["id"] for dn in f.all_nodes() if dn["k"] == "DeclStmt" and f.enclosing(dn, ("WhileStmt", "ForStmt", "DoStmt")) is not None for d in dn["decls"]}
+
+                def delim_found(tt, tr, nd):
+                    nd = strip(nd)
+                    if nd is None or nd["k"] != "BinaryOperator" or nd.get("op") not in ("!=", "==") or not tt.endswith("npos)"):
+                        return False
+                    l_ = strip(kids(nd)[0])
+                    return l_["k"] == "DeclRefExpr" and l_["decl"]["id"] in inloop and ((nd["op"] == "!=" and tr is True) or (nd["op"] == "==" and tr is False))
+                found = any(delim_found(tt, tr, nd) for a in cfg.dom.get(b, ()) for s_ in cfg.succ[a] if (s_ == b or cfg.dominates(s_, b)) and set(cfg.pred[s_]) == {a} for tt, tr, nd in e1.edge_facts(cfg, a, s_))
                 if not found:
                     continue
                 heads = [h for h, bl in loops.items() if b in bl]
@@ -195,8 +205,8 @@ def _alpha(f, root):
             out.append("%s %s" % (n["k"], r(f.nodes[n["cond"]])))
         elif n["k"] in ("BinaryOperator", "CompoundAssignOperator") and n.get("op", "").endswith("=") and n["op"] not in ("==", "!=", "<=", ">="):
             out.append("assign " + r(n))
-        elif is_call(n) and n["callee"]["name"] in ("push_back", "operator="):
-            out.append("call " + r(n))
+        elif is_call(n) and n["callee"]["name"] in ("push_back", "emplace_back", "operator="):
+            out.append("call " + r(n).replace("emplace_back(", "push_back(", 1))
         elif n["k"] == "BreakStmt":
             out.append("break")
     return out
@@ -254,7 +264,7 @@ def _d4(chk, fb):
         # members of KeyvalTools and file-local helpers of KeyvalTools.cpp that receive the flag
         if f.body is None or not (f.cls == "bpp::KeyvalTools" or f.file.endswith("Bpp/Text/KeyvalTools.cpp")):
             continue
-        flagnames = [p_["name"] for p_ in f.params if (p_.get("ty") or "") == "bool" and p_["name"] in ("nested", "isNested", "nestedBlocks")]
+        flagnames = [p_["name"] for p_ in f.params if (p_.get("ty") or "") in ("bool", "const bool") and p_["name"] in ("nested", "isNested", "nestedBlocks")]
         if not flagnames:
             continue
         fl = flagnames[0]
